@@ -10,11 +10,12 @@ WT=$(mktemp -d /tmp/evseed.XXXXXX)
 trap 'git -C /repo worktree remove --force "$WT" >/dev/null 2>&1; rm -rf "$WT"; git -C /repo checkout -- . ' EXIT
 git -C /repo worktree add -q --detach "$WT" HEAD || exit 2
 run_py() { (cd "$WT" && PYTHONPATH="$WT/src" TQDM_DISABLE=1 MPLBACKEND=Agg /venv/bin/python "$@"); }
-# demo on the unchanged tree
-run_py "$SRC/demo.py" >/tmp/evseed_demo0.txt 2>&1; D0=$?
+# test-suite first (a demo may leave files behind), then the demo with and without the change
 git -C "$WT" apply "$SRC/patch.diff" || { echo "RESULT $NAME: patch does not apply"; exit 2; }
 TESTS=$( (cd "$WT" && PYTHONPATH="$WT/src" /venv/bin/python -m pytest -q -p no:cacheprovider --timeout=900 2>&1 | tail -1) )
 run_py "$SRC/demo.py" >/tmp/evseed_demo1.txt 2>&1; D1=$?
+git -C "$WT" apply -R "$SRC/patch.diff"
+run_py "$SRC/demo.py" >/tmp/evseed_demo0.txt 2>&1; D0=$?
 echo "demo unchanged: exit $D0; demo with change: exit $D1; tests with change: $TESTS"
 CONFIRMED=false
 if [ "$D0" = "0" ] && [ "$D1" != "0" ] && echo "$TESTS" | grep -q "61 passed" && ! echo "$TESTS" | grep -q "failed"; then CONFIRMED=true; fi
